@@ -101,6 +101,17 @@ def run(chk: Check):
     for i in range(n):
         scn = ch.gen_scn(rng, sched="rr", conv=rng.random() < 0.85, max_batches=rng.randint(2, 12))
         scn.verbose = rng.random() < 0.5
+        if i % 5 == 2 and scn.conv is not None:
+            # a nearly exhausted space: the samplers keep proposing the same few vectors (the history is full of repeated parameter vectors),
+            # most of them with a loss that does not round to zero, one or two with a loss that does
+            vals = [0.0, 0.5, 1.0, 1.5, 2.0]
+            scn.lineup = [(c, bs, [[[rng.choice(vals) for _ in range(scn.dims)] for _ in range(bs)] for _ in script], cs) for (c, bs, script, cs) in scn.lineup]
+            h = 0.5 * 10.0 ** (-scn.conv)
+            thetas = sorted({tuple(r) for (_, _, script, _) in scn.lineup for call in script for r in call})
+            scn.loss_table = {th: rng.choice([1.0, 3.0, 0.7, 2.0 * h + 1.0]) for th in thetas}
+            for th in rng.sample(thetas, min(len(thetas), rng.randint(1, 2))):
+                scn.loss_table[th] = rng.choice([0.0, h / 3, -h / 3, 0.4 * 10.0 ** (-scn.conv)])
+            chk.count("history_with_repeated_vectors")
         if scn.folder and rng.random() < 0.6:
             scn.ops = [o for o in scn.ops if o[0] == "C"][:3]
             scn.ops.append(("R",))
